@@ -121,13 +121,15 @@ const C52: u64 = 0x4330_0000_0000_0000;
 // Float to uint conversion with rounding to nearest even number. Formula
 // follows the form (x_f32 + C23_f32) - C23_u32, where x is the component. From
 // Hacker's Delight, p. 378-380.
-// Works on the range of [-0.25, 2^23] for f32, [-0.25, 2^52] for f64.
+// Works on the range of [-0.25, 2^23] for f32, [-0.25, 2^52] for f64, so the
+// scaled value is limited to at least 0 first, and values from 2^52 and up
+// (possible for u64 and u128) are already integers and are cast directly.
 //
 // Special cases:
 // NaN -> uint::MAX
 // inf -> uint::MAX
 // -inf -> 0
-// Greater than 2^23 for f64, 2^52 for f64 -> uint::MAX
+// Less than 0 -> 0
 macro_rules! convert_float_to_uint {
     ($float: ident; direct ($($direct_target: ident),+); $(via $temporary: ident ($($target: ident),+);)*) => {
         $(
@@ -135,7 +137,7 @@ macro_rules! convert_float_to_uint {
                 #[inline]
                 fn into_stimulus(self) -> $direct_target {
                     let max = $direct_target::max_intensity() as $float;
-                    let scaled = (self * max).min(max);
+                    let scaled = (self * max).min(max).max(0.0);
                     let f = scaled + f32::from_bits(C23);
                     (f.to_bits().saturating_sub(C23)) as $direct_target
                 }
@@ -148,9 +150,14 @@ macro_rules! convert_float_to_uint {
                     #[inline]
                     fn into_stimulus(self) -> $target {
                         let max = $target::max_intensity() as $temporary;
-                        let scaled = (self as $temporary * max).min(max);
-                        let f = scaled + f64::from_bits(C52);
-                        (f.to_bits().saturating_sub(C52)) as  $target
+                        let scaled = (self as $temporary * max).min(max).max(0.0);
+                        if scaled < f64::from_bits(C52) {
+                            let f = scaled + f64::from_bits(C52);
+                            (f.to_bits().saturating_sub(C52)) as $target
+                        } else {
+                            // Already an integer, and too large for the addition trick.
+                            scaled as $target
+                        }
                     }
                 }
             )+
@@ -167,9 +174,14 @@ macro_rules! convert_double_to_uint {
                 #[inline]
                 fn into_stimulus(self) -> $direct_target {
                     let max = $direct_target::max_intensity() as $double;
-                    let scaled = (self * max).min(max);
-                    let f = scaled + f64::from_bits(C52);
-                    (f.to_bits().saturating_sub(C52)) as $direct_target
+                    let scaled = (self * max).min(max).max(0.0);
+                    if scaled < f64::from_bits(C52) {
+                        let f = scaled + f64::from_bits(C52);
+                        (f.to_bits().saturating_sub(C52)) as $direct_target
+                    } else {
+                        // Already an integer, and too large for the addition trick.
+                        scaled as $direct_target
+                    }
                 }
             }
         )+
